@@ -65,11 +65,35 @@ def claimed():
     return sorted(_P)
 
 
+def _has(main, *prefixes):
+    return any(k.startswith(p) and v > 0 for k, v in main['stats'].items() for p in prefixes)
+
+
+NT = {
+    'C04': (lambda m: _has(m, 'c04.sets_judged', 'c04.ctor_judged', 'c04.parser_judged'),
+            'one evaluation = one element class (all 441 in turn) given a seeded sequence of attribute assignments through constructor keyword, dot assignment and the parser (declared / undeclared names, certainly valid / invalid values, overwrite, None) interleaved with to_string(); distinct = distinct op lists; non-trivial = at least one assignment was judged against the reference store'),
+    'C10': (lambda m: _has(m, 'c10.failed_calls_judged'),
+            'one evaluation = one seeded history with a high rate of calls the library rejects, its forked observations after failures, and its erasure twin (the same history without the failed calls, in another pristine fork); distinct = distinct op lists; non-trivial = at least one failing call was judged (snapshot before/after + twin)'),
+    'C11': (lambda m: _has(m, 'c11.removals_judged'),
+            'one evaluation = one seeded history with removals; after every successful removal the live element and a rebuilt twin are observed in nested forks; distinct = distinct op lists; non-trivial = at least one removal was judged against its rebuilt twin'),
+    'C13': (lambda m: len(set(m.get('interleaving') or '')) >= 2,
+            'one evaluation = one world of 2-4 interleaved clients (seeded cooperative scheduler, one op = one step) plus canary, and one projection twin per document in pristine forks; distinct = distinct op lists; non-trivial = at least two clients were actually interleaved'),
+    'C14': (lambda m: _has(m, 'c14.copies_judged'),
+            'one evaluation = one history, a deepcopy at a seeded point, two owners mutating original and copy interleaved, forked observation at the copy and projection twins; distinct = distinct op lists; non-trivial = a copy was made and judged'),
+    'C15': (lambda m: _has(m, 'c15.pairs_judged'),
+            'one evaluation = one abstract program rendered on the explicit API and on the shortcut syntax (atomic PAIR steps, mixed renderings, dot reads on both documents); distinct = distinct op lists; non-trivial = at least one step pair was judged'),
+    'C16': (lambda m: _has(m, 'fault.obs.interpose') or _has(m, 'c16.outputs_judged'),
+            'one evaluation = one mutator task and one reader task sharing a tree under the seeded scheduler, plus two erasure twins (without all reads; without all but the last serialising read); distinct = distinct op lists; non-trivial = at least one serialisation was judged or one read interposed'),
+    'C18': (lambda m: _has(m, 'c18.'),
+            'one evaluation = one tree mixing checked and unchecked nodes (free / checked-twin / nested / transplant shapes); distinct = distinct op lists; non-trivial = at least one judgement specific to unchecked nodes was made'),
+}
+
 for _pid, _q, _t in (('C01', 6000, 60000), ('C06', 6000, 60000), ('C07', 6000, 60000), ('C12', 6000, 60000),
                      ('C19', 6000, 60000), ('C04', 4000, 40000), ('C10', 3000, 30000), ('C11', 3000, 30000),
                      ('C13', 2000, 20000), ('C14', 2000, 20000), ('C15', 4000, 40000), ('C16', 3000, 30000),
                      ('C18', 4000, 40000)):
-    reg(Prop(_pid, {'quick': _q, 'thorough': _t}, {'quick': 100, 'thorough': 1500}, RULE_HIST, nontrivial=nt_structure,
+    reg(Prop(_pid, {'quick': _q, 'thorough': _t}, {'quick': 100, 'thorough': 1500},
+             NT[_pid][1] if _pid in NT else RULE_HIST, nontrivial=NT[_pid][0] if _pid in NT else nt_structure,
              cfg={'thorough': {'all_attrs': True}} if _pid == 'C04' else None))
 
 
